@@ -572,6 +572,27 @@ func runLockstep(c hCase) hRun {
 	return run
 }
 
+// closedByShutdown: once a graceful Shutdown has begun the server is free to
+// end the connections it still has - RFC 5321 3.8: a 421 reply and goodbye, or
+// (no property says otherwise) just goodbye; go-smtp's documentation promises
+// not to, but nothing listed here depends on that. It returns the index of the
+// step at which the connection was ended that way (the history is judged up
+// to there), or -1.
+func closedByShutdown(c hCase, run hRun) int {
+	if c.ShutdownAt <= 0 {
+		return -1
+	}
+	for i, s := range run.steps {
+		if i+1 >= c.ShutdownAt && s.Closed {
+			if len(s.Replies) == 0 || (len(s.Replies) == 1 && s.Replies[0].Code == 421) {
+				return i
+			}
+			return -1
+		}
+	}
+	return -1
+}
+
 // ---- the command-state monitor (DESIGN.md appendix A) ----
 
 type monitor struct {
